@@ -55,3 +55,230 @@ Qed.
 
 Theorem history_wf h : Forall call_wf h -> wf (moms (run empty_circuit h)).
 Proof. apply run_wf. constructor. Qed.
+
+(* ==== D3: the placement cache, whenever present, equals the summary recomputed from the moments ==== *)
+Lemma none_cache_ok ms s : cache_ok (mkc ms None s).
+Proof. intros p Hp. discriminate. Qed.
+
+Lemma replace_with_inv (P : cstate -> Prop) c r :
+  P c -> (forall c' z, r = (c', inl z) -> P c') -> P (fst (replace_with c r)).
+Proof. intros Hc Hr. unfold replace_with. destruct r as [c' [z|e]]; simpl; [eapply Hr; reflexivity|exact Hc]. Qed.
+
+Lemma cached_cache_ok {A} c get put compute (wrap : A -> res) : cache_ok c -> cache_ok (fst (cached c get put compute wrap)).
+Proof. unfold cached. intros H. destruct (get (sm c)); exact H. Qed.
+
+Lemma zip_loop_cache_ok cs n a ks : forall acc c' r, zip_loop cs n a ks acc = (c', r) -> cache_ok acc -> cache_ok c'.
+Proof.
+  induction ks as [|k r0 IH]; intros acc c' r H Hc; cbn [zip_loop] in H.
+  - injection H as <- <-. exact Hc.
+  - destruct (mk_moment _) as [m|]; [|injection H as <- <-; exact Hc].
+    destruct (append acc [IMom m] EARLIEST) as [acc' [z|e]] eqn:Ea.
+    + eapply IH; [exact H|]. unfold append in Ea. eapply insert_cache_ok; eassumption.
+    + injection H as <- <-. unfold append in Ea. eapply insert_cache_ok; eassumption.
+Qed.
+
+Lemma insert_into_range_cache_ok c its s e c' r : insert_into_range c its s e = (c', r) -> cache_ok c -> cache_ok c'.
+Proof.
+  unfold insert_into_range. intros H Hc. destruct (_ && _) eqn:Eg; [|injection H as <- <-; exact Hc].
+  destruct (range_loop _ _ _ _) as [[ms rest] er] eqn:E.
+  assert (er = None).
+  { eapply range_loop_noerr; [|exact E]. apply andb_true_iff in Eg as [Eg1 Eg3]. apply andb_true_iff in Eg1 as [Eg1 Eg2].
+    apply Z.leb_le in Eg1, Eg2, Eg3. lia. }
+  subst er. destruct rest; [injection H as <- <-; apply none_cache_ok|].
+  eapply insert_cache_ok; [|exact H]. apply none_cache_ok.
+Qed.
+
+Lemma step_cache_ok c x : cache_ok c -> not_with_tags x -> cache_ok (fst (step c x)).
+Proof.
+  intros Hc Hx. destruct x; simpl in Hx; try contradiction; unfold step;
+    try (apply cached_cache_ok; exact Hc); try exact Hc; try (apply none_cache_ok).
+  - apply empty_cache_ok.
+  - apply replace_with_inv; [exact Hc|]. intros c' z E. eapply construct_cache_ok; exact E.
+  - apply replace_with_inv; [exact Hc|]. intros c' z E. unfold add, append in E. eapply insert_cache_ok; [|exact E]. apply none_cache_ok.
+  - apply replace_with_inv; [exact Hc|]. intros c' z E. unfold radd in E.
+    destruct (construct its EARLIEST) as [c1 [z1|e1]]; [|discriminate]. injection E as <- _. apply none_cache_ok.
+  - apply replace_with_inv; [exact Hc|]. intros c' z E. unfold inverse in E.
+    destruct (forallb _ _); [|discriminate]. injection E as <- _. apply none_cache_ok.
+  - apply replace_with_inv; [exact Hc|]. intros c' z E. unfold transform_qubits in E.
+    destruct (map_moments f (moms c)); [|discriminate]. injection E as <- _. apply none_cache_ok.
+  - apply replace_with_inv; [exact Hc|]. intros c' z E. unfold zip in E.
+    destruct (zip_loop _ _ _ _ _) as [c1 [z1|e1]] eqn:Ez; [|discriminate]. injection E as <- _.
+    eapply zip_loop_cache_ok; [exact Ez|apply empty_cache_ok].
+  - apply replace_with_inv; [exact Hc|]. intros c' z E. unfold concat_ragged in E.
+    destruct (ragged_loop _ _ _ _ _) as [[[b1 o1] n1]|]; [|discriminate]. injection E as <- _. apply none_cache_ok.
+  - destruct (insert c index its s) as [c' r] eqn:E. simpl. eapply insert_cache_ok; eassumption.
+  - destruct (append c its s) as [c' r] eqn:E. simpl. unfold append in E. eapply insert_cache_ok; eassumption.
+  - destruct (insert_into_range c its s e) as [c' r] eqn:E. simpl. eapply insert_into_range_cache_ok; eassumption.
+  - destruct (insert_at_frontier c its start f) as [c' r] eqn:E. unfold insert_at_frontier in E.
+    assert (Hc' : cache_ok c').
+    { destruct (items_ops its); [injection E as <- _; exact Hc|].
+      destruct (existsb _ _); [injection E as <- _; exact Hc|].
+      destruct (pick_indices _ _ _). destruct (push_frontier _ _ _ _). destruct (insert_groups _ _) as [ms3 [e3|]];
+        injection E as <- _; apply none_cache_ok. }
+    destruct r; exact Hc'.
+  - destruct (batch_remove c rs) as [c' r] eqn:E. simpl. unfold batch_remove, finish_batch in E.
+    destruct (batch_remove_loop _ _); injection E as <- _; [apply none_cache_ok|exact Hc].
+  - destruct (batch_replace c rs) as [c' r] eqn:E. simpl. unfold batch_replace, finish_batch in E.
+    destruct (batch_replace_loop _ _); injection E as <- _; [apply none_cache_ok|exact Hc].
+  - destruct (batch_insert_into c rs) as [c' r] eqn:E. simpl. unfold batch_insert_into, finish_batch in E.
+    destruct (batch_insert_into_loop _ _); injection E as <- _; [apply none_cache_ok|exact Hc].
+  - destruct (batch_insert c ins) as [c' r] eqn:E. simpl. unfold batch_insert in E.
+    destruct (batch_insert_loop _ _ _); injection E as <- _; [apply none_cache_ok|exact Hc].
+  - destruct (setitem c i m) as [c' r] eqn:E. simpl. unfold setitem in E.
+    destruct (py_index _ _); injection E as <- _; [apply none_cache_ok|exact Hc].
+  - destruct (delitem c i) as [c' r] eqn:E. simpl. unfold delitem in E.
+    destruct (py_index _ _); injection E as <- _; [apply none_cache_ok|exact Hc].
+Qed.
+
+Theorem run_cache_ok h : forall c, cache_ok c -> Forall not_with_tags h -> cache_ok (run c h).
+Proof.
+  induction h as [|x r IH]; intros c Hc Hh; simpl; [exact Hc|].
+  inversion Hh; subst. apply IH; [apply step_cache_ok; assumption|assumption].
+Qed.
+
+Theorem history_cache_ok h : Forall not_with_tags h -> cache_ok (run empty_circuit h).
+Proof. apply run_cache_ok. apply empty_cache_ok. Qed.
+
+(* ==== D6: lazily cached summaries are valid (every mutator clears them) ==== *)
+Lemma no_sums_ok ms cch : sums_ok (mkc ms cch no_sums).
+Proof. repeat split; intros x Hx; discriminate. Qed.
+
+Lemma insert_sums_ok c i its s c' z : sums_ok c -> insert c i its s = (c', inl z) -> sums_ok c'.
+Proof.
+  unfold insert. intros Hs H.
+  set (k := clamp_index i (length (moms c))) in *.
+  match type of H with context [if ?b then None else cache c] => set (c0 := if b then None else cache c) in * end.
+  destruct s.
+  all: try (match type of H with context [do_batches ?a ?b] => destruct (do_batches a b) as [st [e|]] eqn:E end;
+            [discriminate|injection H as <- _; apply no_sums_ok]).
+  match type of H with context [insert_latest ?a ?b ?d] => destruct (insert_latest a b d) as [st [e|]] eqn:E end; [discriminate|].
+  injection H as <- _. destruct (l_max st =? -1) eqn:Em; [|apply no_sums_ok].
+  unfold insert_latest in E. apply latest_batches_max in E. apply Z.eqb_eq in Em.
+  destruct E as [->|E]; [|lia]. simpl. destruct c as [ms cch sms]. simpl in *. exact Hs.
+Qed.
+
+Lemma zip_loop_sums_ok cs n a ks : forall acc c' z, zip_loop cs n a ks acc = (c', inl z) -> sums_ok acc -> sums_ok c'.
+Proof.
+  induction ks as [|k r0 IH]; intros acc c' z H Hc; cbn [zip_loop] in H.
+  - injection H as <- _. exact Hc.
+  - destruct (mk_moment _) as [m|]; [|discriminate].
+    destruct (append acc [IMom m] EARLIEST) as [acc' [z1|e]] eqn:Ea; [|discriminate].
+    eapply IH; [exact H|]. unfold append in Ea. eapply insert_sums_ok; eassumption.
+Qed.
+
+Lemma step_sums_ok c x : sums_ok c -> raised_midway c x = false -> sums_ok (fst (step c x)).
+Proof.
+  intros Hs Hx. destruct x; simpl in Hx; unfold step; try exact Hs; try (apply no_sums_ok).
+  - (* CNew *) apply replace_with_inv; [exact Hs|]. intros c' z E. unfold construct in E.
+    destruct (all_moments its); [injection E as <- _; apply no_sums_ok|].
+    destruct (is_earliest s).
+    + destruct (place_items _ its) as [st [e|]]; [discriminate|]. injection E as <- _. apply no_sums_ok.
+    + unfold append in E. eapply insert_sums_ok; [|exact E]. apply no_sums_ok.
+  - (* CAdd *) apply replace_with_inv; [exact Hs|]. intros c' z E. unfold add, append in E.
+    eapply insert_sums_ok; [|exact E]. apply no_sums_ok.
+  - (* CRAdd *) apply replace_with_inv; [exact Hs|]. intros c' z E. unfold radd in E.
+    destruct (construct its EARLIEST) as [c1 [z1|e1]]; [|discriminate]. injection E as <- _. apply no_sums_ok.
+  - (* CInv *) apply replace_with_inv; [exact Hs|]. intros c' z E. unfold inverse in E.
+    destruct (forallb _ _); [|discriminate]. injection E as <- _. apply no_sums_ok.
+  - (* CTransform *) apply replace_with_inv; [exact Hs|]. intros c' z E. unfold transform_qubits in E.
+    destruct (map_moments f (moms c)); [|discriminate]. injection E as <- _. apply no_sums_ok.
+  - (* CZip *) apply replace_with_inv; [exact Hs|]. intros c' z E. unfold zip in E.
+    destruct (zip_loop _ _ _ _ _) as [c1 [z1|e1]] eqn:Ez; [|discriminate]. injection E as <- _.
+    eapply zip_loop_sums_ok; [exact Ez|apply no_sums_ok].
+  - (* CConcatRagged *) apply replace_with_inv; [exact Hs|]. intros c' z E. unfold concat_ragged in E.
+    destruct (ragged_loop _ _ _ _ _) as [[[b1 o1] n1]|]; [|discriminate]. injection E as <- _. apply no_sums_ok.
+  - (* CInsert *) destruct (insert c index its s) as [c' [z|e]] eqn:E; [|discriminate]. simpl. eapply insert_sums_ok; eassumption.
+  - (* CAppend *) destruct (append c its s) as [c' [z|e]] eqn:E; [|discriminate]. simpl. unfold append in E. eapply insert_sums_ok; eassumption.
+  - (* CInsertIntoRange *)
+    destruct (insert_into_range c its s e) as [c' r] eqn:E. simpl. simpl in Hx. unfold insert_into_range in E.
+    destruct (_ && _) eqn:Eg; [|injection E as <- _; exact Hs]. simpl in Hx.
+    destruct r as [z|er]; [|discriminate].
+    destruct (range_loop _ _ _ _) as [[ms rest] [er|]] eqn:El; [discriminate|].
+    destruct rest; [injection E as <- _; apply no_sums_ok|].
+    eapply insert_sums_ok; [|exact E]. apply no_sums_ok.
+  - (* CInsertAtFrontier *)
+    destruct (insert_at_frontier c its start f) as [c' r] eqn:E. unfold insert_at_frontier in E.
+    assert (Hc' : sums_ok c').
+    { destruct (items_ops its); [injection E as <- _; exact Hs|].
+      destruct (existsb _ _); [injection E as <- _; exact Hs|].
+      destruct (pick_indices _ _ _). destruct (push_frontier _ _ _ _). destruct (insert_groups _ _) as [ms3 [e3|]];
+        injection E as <- _; apply no_sums_ok. }
+    destruct r; exact Hc'.
+  - destruct (batch_remove c rs) as [c' r] eqn:E. simpl. unfold batch_remove, finish_batch in E.
+    destruct (batch_remove_loop _ _); injection E as <- _; [apply no_sums_ok|exact Hs].
+  - destruct (batch_replace c rs) as [c' r] eqn:E. simpl. unfold batch_replace, finish_batch in E.
+    destruct (batch_replace_loop _ _); injection E as <- _; [apply no_sums_ok|exact Hs].
+  - destruct (batch_insert_into c rs) as [c' r] eqn:E. simpl. unfold batch_insert_into, finish_batch in E.
+    destruct (batch_insert_into_loop _ _); injection E as <- _; [apply no_sums_ok|exact Hs].
+  - destruct (batch_insert c ins) as [c' r] eqn:E. simpl. unfold batch_insert in E.
+    destruct (batch_insert_loop _ _ _); injection E as <- _; [apply no_sums_ok|exact Hs].
+  - destruct (setitem c i m) as [c' r] eqn:E. simpl. unfold setitem in E.
+    destruct (py_index _ _); injection E as <- _; [apply no_sums_ok|exact Hs].
+  - destruct (delitem c i) as [c' r] eqn:E. simpl. unfold delitem in E.
+    destruct (py_index _ _); injection E as <- _; [apply no_sums_ok|exact Hs].
+  - (* QAllQubits *) unfold cached. destruct (s_qubits (sm c)) eqn:Eq; [exact Hs|].
+    destruct Hs as [H1 [H2 [H3 [H4 H5]]]]. repeat split; simpl; try assumption. intros l Hl. injection Hl as <-. reflexivity.
+  - (* QFreeze *) unfold cached. destruct (s_frozen (sm c)) eqn:Eq; [exact Hs|].
+    destruct Hs as [H1 [H2 [H3 [H4 H5]]]]. repeat split; simpl; try assumption. intros l Hl. injection Hl as <-. reflexivity.
+  - (* QIsMeasurement *) unfold cached. destruct (s_ismeas (sm c)) eqn:Eq; [exact Hs|].
+    destruct Hs as [H1 [H2 [H3 [H4 H5]]]]. repeat split; simpl; try assumption. intros l Hl. injection Hl as <-. reflexivity.
+  - (* QIsParameterized *) unfold cached. destruct (s_isparam (sm c)) eqn:Eq; [exact Hs|].
+    destruct Hs as [H1 [H2 [H3 [H4 H5]]]]. repeat split; simpl; try assumption. intros l Hl. injection Hl as <-. reflexivity.
+  - (* QParameterNames *) unfold cached. destruct (s_pnames (sm c)) eqn:Eq; [exact Hs|].
+    destruct Hs as [H1 [H2 [H3 [H4 H5]]]]. repeat split; simpl; try assumption. intros l Hl. injection Hl as <-. reflexivity.
+Qed.
+
+Theorem run_sums_ok h : forall c, sums_ok c -> clean c h -> sums_ok (run c h).
+Proof.
+  induction h as [|x r IH]; intros c Hc Hh; simpl; [exact Hc|].
+  destruct Hh as [Hx Hr]. apply IH; [apply step_sums_ok; assumption|assumption].
+Qed.
+
+Theorem history_sums_ok h : clean empty_circuit h -> sums_ok (run empty_circuit h).
+Proof. apply run_sums_ok. apply no_sums_ok. Qed.
+
+(* ==== D2: conservation of operations, as permutations of uid lists ==== *)
+Lemma cnt_all_perm (a b : list opd) : (forall u, cnt u a = cnt u b) -> Permutation (map uid a) (map uid b).
+Proof. apply cnt_perm. Qed.
+
+Theorem insert_no_loss c i its s c' z :
+  insert c i its s = (c', inl z) -> Permutation (uids (moms c')) (uids (moms c) ++ map uid (items_ops its)).
+Proof.
+  intros H. unfold uids. rewrite <- map_app. apply cnt_perm. intros u.
+  destruct (insert_cnt u _ _ _ _ _ _ H) as [_ [_ H3]]. specialize (H3 eq_refl).
+  rewrite cnt_app. exact H3.
+Qed.
+
+Theorem insert_failure_bounds c i its s c' e u :
+  insert c i its s = (c', inr e) ->
+  (ccnt u (moms c) <= ccnt u (moms c') <= ccnt u (moms c) + icnt u its)%nat.
+Proof. intros H. destruct (insert_cnt u _ _ _ _ _ _ H) as [H1 [H2 _]]. lia. Qed.
+
+Theorem construct_no_loss its s c' z :
+  construct its s = (c', inl z) -> Permutation (uids (moms c')) (map uid (items_ops its)).
+Proof.
+  intros H. unfold uids. apply cnt_perm. intros u.
+  destruct (construct_cnt u _ _ _ _ H) as [_ [_ H3]]. specialize (H3 eq_refl). rewrite ccnt_nil in H3. exact H3.
+Qed.
+
+(* ==== the defects, as refuted statements with their witnesses (replayed on the implementation by the check) ==== *)
+Definition wX (u q : Z) : opd := mkop u [q] [] [] [] true.
+
+(* with_tags leaves an empty cache next to non-empty moments *)
+Theorem with_tags_cache_refuted :
+  exists h, Forall call_wf h /\ ~ cache_ok (run empty_circuit h).
+Proof.
+  exists [CNew [IMom [wX 1 0]] EARLIEST; CWithTags]. split.
+  - repeat constructor; simpl; tauto.
+  - intros H. specialize (H empty_cache eq_refl). destruct H as [H _]. simpl in H. discriminate.
+Qed.
+
+(* ... so an appended Moment does not end up last *)
+Theorem with_tags_append_refuted :
+  exists h m, Forall call_wf (h ++ [CAppend [IMom m] EARLIEST]) /\
+              moms (run empty_circuit (h ++ [CAppend [IMom m] EARLIEST])) <> moms (run empty_circuit h) ++ [m].
+Proof.
+  exists [CNew [IMom [wX 1 0]] EARLIEST; CWithTags], [wX 2 0]. split.
+  - repeat constructor; simpl; tauto.
+  - vm_compute. discriminate.
+Qed.
